@@ -30,7 +30,7 @@ def run(chk):
     thorough = chk.tier == "thorough"
     jobs = []
     if thorough:
-        jobs += [("dv4", cfg("dv4", (1, 2, 3), ("dv",), 4), {}), ("csr3", cfg("csr3", (1, 2, 3), ("csr",), 3), {}),
+        jobs += [("dv4", cfg("dv4", (1, 2), ("dv",), 4), {}), ("dv3", cfg("dv3", (1, 2, 3), ("dv",), 3), {}), ("csr3", cfg("csr3", (1, 2, 3), ("csr",), 3), {}),
                  ("mix3", cfg("mix3", (1, 2, 3), ("dv", "csr"), 3), {}),
                  ("layout6", cfg("layout6", (1, 2, 3), ("csr",), 6, ops=("create", "layout", "destroy", "clone")), {}),
                  ("rangemove5", cfg("rangemove5", (1, 2, 3), ("dv",), 5, ops=("create", "range", "move", "destroy", "clear", "convert")), {}),
